@@ -33,10 +33,10 @@ def skel (ga gl : V) : V :=
 
 /-! ### the asset group -/
 
-/-- the default of a defense with the given TTC (`defense.ttc and defense.ttc['name'] == 'Enabled'`) -/
+/-- the default of a defense with the given TTC (`defense.ttc and defense.ttc.get('name') == 'Enabled'`) -/
 def defaultOf (ttc : V) : M V :=
   if Visitor.truthy ttc then do
-    let n ← getItem ttc (V.str "name")
+    let n ← getOr ttc (V.str "name") V.none
     pure (if V.eq n (V.str "Enabled") then V.num "1.0" else V.num "0.0")
   else pure (V.num "0.0")
 
